@@ -649,7 +649,16 @@ impl Inst {
                 self.story = Some(fresh);
                 Self::res_unit(r)
             }
-            Op::Reset => Self::res_unit(story.reset_state()),
+            Op::Reset => {
+                let r = story.reset_state();
+                if r.is_ok() {
+                    // the host starts a new transcript: harness-side bookkeeping only
+                    log.events.borrow_mut().clear();
+                    log.lines_delivered.set(0);
+                    self.async_pending = false;
+                }
+                Self::res_unit(r)
+            }
             Op::Eval(f, args) => {
                 let a: Vec<ValueType> = args.iter().map(|v| v.to_vt()).collect();
                 let mut out = String::new();
